@@ -117,6 +117,28 @@ def forbidden_tokens(relpaths):
     return hits
 
 
+def import_closure(prop_module_rel):
+    """all project files (incl. generated ones) the module imports transitively"""
+    seen = []
+    todo = [prop_module_rel]
+    while todo:
+        rel = todo.pop()
+        if rel in seen:
+            continue
+        seen.append(rel)
+        path = os.path.join(LEAN, rel)
+        if not os.path.exists(path):
+            continue
+        with open(path, encoding='utf-8') as f:
+            for line in f:
+                m = re.match(r'^import\s+(Sql[\w\.]+)', line)
+                if m:
+                    todo.append(m.group(1).replace('.', '/') + '.lean')
+                elif line.strip() and not line.startswith('import') and not line.startswith('--') and not line.startswith('/-'):
+                    break
+    return seen
+
+
 def proof_sources(prop_module_rel):
     """the SqlProps file plus every project file it imports transitively (generated tables excluded):
     these are scanned for forbidden tokens (sorry, admit, axiom, native_decide, …)"""
